@@ -131,6 +131,8 @@ def _arms(ctx, b):
     """closures of edit_word grouped by role"""
     cl = closures_in(ctx, b, recursive=False)
     roles = {}
+    filter_site = {}
+    pending = []
     for c in cl:
         rv = [core(v) for v, blk in ret_values(c)]
         txt = ' '.join(repr(x) for x in rv)
@@ -139,6 +141,7 @@ def _arms(ctx, b):
         for t in b.calls(r'Iterator::filter_map$|Iterator::filter$'):
             a = sym(b, t.args[1])
             if a[0] == 'agg' and a[2] == c.path:
+                filter_site[c.path] = t
                 src = core(sym(b, t.args[0]))
                 if has(src, Call('RangeInclusive::new', ANY, ANY)):
                     rng_kind = 'inclusive'
@@ -160,6 +163,16 @@ def _arms(ctx, b):
                             k = {0: 'insert-shift', 1: 'delete-shift', 2: 'replace-shift'}.get(list(g.values)[0])
                             if k:
                                 roles[k] = c
+                    pending.append((c, t))
+    # a re-indexing closure belongs to the edit kind whose candidate filter runs in the same match arm (dominates its use): this does
+    # not depend on how the chosen edit kind is represented (integer code, enum, ...)
+    for c, t in pending:
+        if c in roles.values():
+            continue
+        for fr, sr in (('insert-filter', 'insert-shift'), ('delete-filter', 'delete-shift'), ('replace-filter', 'replace-shift')):
+            fc = roles.get(fr)
+            if fc is not None and fc.path in filter_site and cfg.dominates(b, filter_site[fc.path].bb, t.bb) and sr not in roles:
+                roles[sr] = c
     return roles
 
 
